@@ -1,5 +1,6 @@
 mod alloc;
 mod auth;
+mod autoalloc;
 mod checks;
 mod common;
 mod glue;
@@ -31,6 +32,7 @@ fn main() {
                 "C16" | "C04alloc" => alloc::check(&prop, &tier),
                 "C19" => stream::check(&prop, &tier),
                 "C20" => auth::check(&prop, &tier),
+                "C17" | "C18" => autoalloc::check(&prop, &tier),
                 _ => {
                     eprintln!("no check registered for {prop}");
                     2
